@@ -1,7 +1,7 @@
 (* C08 - correspondence glue: case type and the comparison of the model with what the real parser recorded. *)
 From Coq Require Import List NArith PArith Bool.
 Import ListNotations.
-Require Import Verif.Loc.Model Verif.Base.Harness.
+Require Import Verif.Loc.Model Verif.Loc.LocProps Verif.Base.Harness.
 Local Open Scope N_scope.
 
 Inductive obs_ctx := X (file sl sc el ec : N).
@@ -19,6 +19,7 @@ Definition c08_ok (c : c08_case) : bool :=
   match c with C fs obs =>
     let out := compile fs in
     forallb (fun ko => all2 ctx_eqb (contexts_of (fst ko) out) (snd ko)) obs
+    && forallb wf_file fs      (* the hypothesis of loc_end_ge_start holds of the case *)
   end.
 
 (* diagnostics: the keys on which model and observation differ, with both lists *)
